@@ -516,6 +516,12 @@ func (c *Counter) Add(d int) int {
 func (c *Counter) Load() int { simple("counter.Load", nil); EvRead(&c.o, "counter.load", uint64(int64(c.v))); return c.v }
 func (c *Counter) Peek() int { return c.v }
 
+// Await parks until the counter equals want.
+func (c *Counter) Await(want int) {
+	simple("counter.Await", func() bool { return c.v == want })
+	EvRead(&c.o, "counter.await", uint64(int64(c.v)))
+}
+
 // TimersFired reports how many timers have fired so far in this execution (read as an HB event on the timer).
 func TimersFired() int { return S.TimersFired }
 
